@@ -65,24 +65,28 @@ def main():
             shutil.rmtree(wt, ignore_errors=True)
         print('CONFIRMED' if out['confirmed'] else 'NOT CONFIRMED')
     if checks:
-        rc, o = sh(f'git -C {REPO} status --short --untracked-files=no')
-        assert o.strip() == '', f'/repo has local edits: {o}'
+        # checks run against a scratch worktree with the patch applied (VERIF_REPO redirects the import), /repo is not touched
+        wt = tempfile.mkdtemp(prefix='vwt_', dir='/tmp')
+        os.rmdir(wt)
         try:
-            rc, o = sh(f'git apply --3way {patch} 2>&1 || git apply {patch}', cwd=REPO)
+            rc, o = sh(f'git -C {REPO} worktree add -q --detach {wt} HEAD')
             assert rc == 0, o
-            sh('git reset -q', cwd=REPO)
+            rc, o = sh(f'git apply --3way {patch} 2>&1 || git apply {patch}', cwd=wt)
+            assert rc == 0, o
+            env = dict(os.environ, VERIF_REPO=wt, VERIF_EVIDENCE_DIR=os.path.join(wt, '_evidence'), VERIF_REPLAY_DIR=os.path.join(wt, '_replays'))
+            rc, o = sh('/venv/bin/python -c "import bridge_env,sys; print(bridge_env.__file__)"', cwd='/verif', env=dict(env, PYTHONPATH=wt))
+            assert o.strip().startswith(wt), o
             for cid in checks:
-                rc, o = sh(f'./check {cid} --tier {tier}', cwd='/verif', timeout=7200)
+                rc, o = sh(f'./check {cid} --tier {tier}', cwd='/verif', timeout=7200, env=env)
                 viol = [l for l in o.splitlines() if l.startswith('VIOLATION')]
                 first = next((l for l in o.splitlines() if l.startswith('  ') and ':' in l), '')
-                out['checks'][cid] = {'exit': rc, 'violations': len(viol)}
+                out['checks'][cid] = {'exit': rc, 'violations': len(viol), 'first': first.strip()[:300]}
                 print(f'check {cid}: exit {rc}, {len(viol)} VIOLATION lines;{first[:400]}')
                 if rc == 2:
                     print(o[-1500:])
         finally:
-            sh('git checkout -- . && git reset -q --hard HEAD', cwd=REPO)
-            rc, o = sh(f'git -C {REPO} status --short --untracked-files=no')
-            assert o.strip() == '', o
+            sh(f'git -C {REPO} worktree remove --force {wt}; git -C {REPO} worktree prune')
+            shutil.rmtree(wt, ignore_errors=True)
     print(json.dumps(out))
     caught = any(v['exit'] == 1 for v in out['checks'].values())
     return 0 if (out['confirmed'] is not False and caught) else 1
